@@ -169,6 +169,27 @@ CLAIMED["C20"] = (
     "That the scanner/resolver hand the offending token to the report call is tested on mutants, not proved. "
     "Buffered (-B) ordering not modelled. Open finding: characters the scanner does not list are silently white space.",
     "DESIGN.md C20")
+CLAIMED["C12"] = (
+    "Rocq/Coq non-interference theorem for the aggregate-bound printer (regenerated branch structure of "
+    "AGGRprint_bound) and total-correctness theorems for the dictionary whose iteration order fixes every emission "
+    "order; differential runs of all four tools under varied cwd/path/env/locale/ASLR with byte comparison; "
+    "dictionary order vs the extracted model",
+    "coq/GenBound.v models what exp2cxx writes for an aggregate bound with an explicit [world] parameter standing for "
+    "everything that is not schema text (the bytes under the union member u.integer); gen/BoundRule.v is regenerated "
+    "from AGGRprint_bound()'s if/else chain on every run. Properties_C12.v proves (axiom-free) print_bound w e = "
+    "print_bound w' e for all worlds and expressions -- on the tree before fix 7785763f the regenerated rule makes this "
+    "theorem false (identifier bounds printed a pointer). coq/Hash.v models src/express/hash.c (linear hashing with "
+    "bucket splitting, constants and code shape anchored by the translator) from the declared names alone; proved for "
+    "every hash function and any number of keys: every declared name is visited exactly once by the iteration, the "
+    "visiting order is a permutation of the declarations, look-up finds exactly the declared names. The check runs "
+    "exp2cxx, exp2python, exppp and schema_scanner on generated and shipped schemas under three variants (cwd, "
+    "absolute / relative / ./ path, 6 kB environment, tr_TR locale, ASLR off, run order) and compares output trees and "
+    "messages byte for byte; compares the printed form of bounds of every expression kind with the model; compares the "
+    "scanner's entity order with Hash.v's dict_order, incl. schemas of 1700 and 2600 entities that make the table split.",
+    "Partial by nature: the theorems cover the two mechanisms the property names; that no other path lets an address, "
+    "time, path or environment value reach an output is established by the differential runs only. The scanner echoes "
+    "its path argument into SCHEMA_TARGETS(...) (normalised before comparison).",
+    "DESIGN.md C12")
 CLAIMED["C17"] = (
     "Rocq/Coq theorems that the scanner's and the generator's file rules (both regenerated from the sources by a "
     "translator) agree for every accepted type shape and that the listed and created file sets are equal for every "
